@@ -170,6 +170,7 @@ func H_C03_step() {
 		cover("dropped")
 		assert(!panicked, "a filtered event never stops the client")
 		assert(len(sink.events) == 0, "a filtered event is not forwarded")
+		assert(o.metrics.TotalMutations == 0 && o.metrics.TotalDeletions == 0 && o.metrics.TotalExpirations == 0, "a filtered event is not counted: the counters are the events accepted")
 	} else if !inSnap {
 		cover("out-of-snapshot")
 		assert(panicked, "an event outside its announced snapshot stops the client")
